@@ -27,20 +27,20 @@ class PreprocessingConfig:
     max_height: Optional[int] = None
     max_width: Optional[int] = None
     scale: float = field(
-        default=1.0, validator=lambda instance, attr, value: instance.validate_scale()
+        default=1.0, validator=lambda instance, attr, value: instance.validate_scale(value)
     )
     crop_hw: Optional[Tuple[int, int]] = None
     min_crop_size: Optional[int] = 100  # to help app work incase of error
 
-    def validate_scale(self):
+    def validate_scale(self, value):
         """Scale Validation.
 
         Ensures PreprocessingConfig's scale is a float>=0 or list of floats>=0
         """
-        if isinstance(self.scale, float) and self.scale >= 0:
+        if isinstance(value, float) and value >= 0:
             return
-        if isinstance(self.scale, list) and all(
-            isinstance(x, float) and x >= 0 for x in self.scale
+        if isinstance(value, list) and all(
+            isinstance(x, float) and x >= 0 for x in value
         ):
             return
         message = "PreprocessingConfig's scale must be a float or a list of floats."
